@@ -7,29 +7,30 @@ cd "$(dirname "$0")"; . ./env.sh
 exec 9>/tmp/kmipsa-gocache.lock; flock -s 9   # compiling: the build cache must not be dropped meanwhile
 ID=$1; V=$2; SRC=${3:-/tmp/seed-out/$ID/$V}
 WT=/tmp/seedchk/$ID-$V
+SC=/tmp/seedchk/$ID-$V.d; rm -rf "$SC"; mkdir -p "$SC"   # per-seed logs: several seedchecks may run side by side
 rm -rf "$WT"; git -C /repo worktree prune; mkdir -p /tmp/seedchk
 git -C /repo worktree add --detach "$WT" HEAD >/dev/null 2>&1 || { echo "worktree failed"; exit 2; }
 trap 'git -C /repo worktree remove --force "$WT" >/dev/null 2>&1; rm -rf "$WT"' EXIT
 res() { printf '%-34s %s\n' "$1" "$2"; }
-if ! git -C "$WT" apply "$SRC/patch.diff" 2>/tmp/seedchk/apply.err && ! git -C "$WT" apply --3way "$SRC/patch.diff" 2>>/tmp/seedchk/apply.err; then res "apply" "FAILED $(head -c 300 /tmp/seedchk/apply.err)"; exit 3; fi
+if ! git -C "$WT" apply "$SRC/patch.diff" 2>$SC/apply.err && ! git -C "$WT" apply --3way "$SRC/patch.diff" 2>>$SC/apply.err; then res "apply" "FAILED $(head -c 300 $SC/apply.err)"; exit 3; fi
 res "apply" ok
 (cd "$WT" && go build ./... 2>&1 | tail -3) && res "build" ok
 DIR=$(head -1 "$SRC/demo_test.go" | sed -n 's#^// *place in: *##p' | awk '{print $1}' | sed 's#/*$##')
 [ -z "$DIR" ] && DIR=.
-if (cd "$WT" && go test -vet=off -count=1 ./... >/tmp/seedchk/suite.log 2>&1); then res "existing suite with change" PASS; else res "existing suite with change" "FAIL: $(grep -m3 -- '--- FAIL\|^FAIL' /tmp/seedchk/suite.log | tr '\n' ' ')"; fi
+if (cd "$WT" && go test -vet=off -count=1 ./... >$SC/suite.log 2>&1); then res "existing suite with change" PASS; else res "existing suite with change" "FAIL: $(grep -m3 -- '--- FAIL\|^FAIL' $SC/suite.log | tr '\n' ' ')"; fi
 cp "$SRC/demo_test.go" "$WT/$DIR/zz_seed_demo_test.go"
-if (cd "$WT" && timeout 300 go test -vet=off -count=1 -run 'Seed|seed' "./$DIR/" >/tmp/seedchk/demo1.log 2>&1); then res "demo with change" "PASS (expected FAIL)"; else res "demo with change" "FAIL (expected): $(grep -m1 -- '--- FAIL' /tmp/seedchk/demo1.log)"; fi
+if (cd "$WT" && timeout 300 go test -vet=off -count=1 -run 'Seed|seed' "./$DIR/" >$SC/demo1.log 2>&1); then res "demo with change" "PASS (expected FAIL)"; else res "demo with change" "FAIL (expected): $(grep -m1 -- '--- FAIL' $SC/demo1.log)"; fi
 # the check on the changed tree (demo file removed first: checks look at non-test sources only)
 rm -f "$WT/$DIR/zz_seed_demo_test.go"
 if [ "${CHECKS:-}" = ALL ]; then CHECKS="C01 C02 C03 C04 C05 C06 C07 C08 C09 C10 C11 C12 C13 C14 C15 C16 C17 C18 C19 C20"; fi
-run1() { local P=$1; VERIF_REPO="$WT" ${KMIPSA:-bin/kmipsa} -repo "$WT" -verif "$PWD" -outdir /tmp/seedchk/out-$P -prop "$P" -tier quick -evidence /tmp/seedchk/ev.$P.json > /tmp/seedchk/check.$P.log 2>&1; echo "$P $?" > /tmp/seedchk/rc.$P; }
-export -f run1; export WT PWD
+run1() { local P=$1; VERIF_REPO="$WT" ${KMIPSA:-bin/kmipsa} -repo "$WT" -verif "$PWD" -outdir $SC/out-$P -prop "$P" -tier quick -evidence $SC/ev.$P.json > $SC/check.$P.log 2>&1; echo "$P $?" > $SC/rc.$P; }
+export -f run1; export WT PWD SC
 echo ${CHECKS:-$ID} | tr ' ' '\n' | xargs -P 10 -I{} bash -c 'run1 {}'
 any=0
 for P in ${CHECKS:-$ID}; do
-  rc=$(awk '{print $2}' /tmp/seedchk/rc.$P)
-  if [ "$rc" = 1 ]; then any=1; res "check $P on changed tree" "VIOLATION: $(grep -m2 'kind=' /tmp/seedchk/check.$P.log | cut -c1-260 | tr '\n' ' ')"; elif [ "$P" = "$ID" ] || [ "$rc" != 0 ]; then res "check $P on changed tree" "silent (rc=$rc)"; fi
+  rc=$(awk '{print $2}' $SC/rc.$P)
+  if [ "$rc" = 1 ]; then any=1; res "check $P on changed tree" "VIOLATION: $(grep -m2 'kind=' $SC/check.$P.log | cut -c1-260 | tr '\n' ' ')"; elif [ "$P" = "$ID" ] || [ "$rc" != 0 ]; then res "check $P on changed tree" "silent (rc=$rc)"; fi
 done
 [ $any = 0 ] && res "all selected checks" "SILENT"
 git -C "$WT" checkout -- . ; cp "$SRC/demo_test.go" "$WT/$DIR/zz_seed_demo_test.go"
-if (cd "$WT" && timeout 300 go test -vet=off -count=1 -run 'Seed|seed' "./$DIR/" >/tmp/seedchk/demo2.log 2>&1); then res "demo without change" "PASS (expected)"; else res "demo without change" "FAIL (unexpected): $(grep -m2 -- '--- FAIL\|^FAIL\|cannot\|undefined' /tmp/seedchk/demo2.log | tr '\n' ' ')"; fi
+if (cd "$WT" && timeout 300 go test -vet=off -count=1 -run 'Seed|seed' "./$DIR/" >$SC/demo2.log 2>&1); then res "demo without change" "PASS (expected)"; else res "demo without change" "FAIL (unexpected): $(grep -m2 -- '--- FAIL\|^FAIL\|cannot\|undefined' $SC/demo2.log | tr '\n' ' ')"; fi
